@@ -65,6 +65,86 @@ def build_ref(spec: dict, counter: Optional[List[int]] = None):
     return ptgen.build(mark(spec, False))
 
 
+VIA = {'rep': ('with_repetition', 'pow'), 'seq': ('concatenate', 'matmul'), 'map': ('with_mapping',),
+       'for': ('with_iteration',), 'par': ('with_parallel_channels',), 'rev': ('with_time_reversal',)}
+
+
+def _build_via(node: dict, via: str):
+    """the node constructed through the fluent / convenience API of its (already built) children"""
+    import functools
+    import qupulse.pulses as qp
+    k = node['k']
+    if k == 'seq':
+        subs = [ptgen.build(c) for c in node['subs']]
+        if via == 'matmul' and len(subs) >= 2:
+            return functools.reduce(lambda a, b: a @ b, subs)
+        return qp.SequencePT.concatenate(*subs)
+    body = ptgen.build(node['body'])
+    if k == 'rep':
+        cnt = node['count']
+        return body ** cnt if via == 'pow' else body.with_repetition(cnt)
+    if k == 'map':
+        kw = {}
+        if node.get('pm') is not None:
+            kw['parameter_mapping'] = dict(node['pm'])
+        if node.get('mm') is not None:
+            kw['measurement_mapping'] = dict(node['mm'])
+        if node.get('cm') is not None:
+            kw['channel_mapping'] = {a: b for a, b in node['cm']}
+        return body.with_mapping(**kw)
+    if k == 'for':
+        return body.with_iteration(node['idx'], tuple(node['range']))
+    if k == 'par':
+        return body.with_parallel_channels(dict(node['over']))
+    if k == 'rev':
+        return body.with_time_reversal()
+    raise core.MachineryError('no helper for node kind %r' % k)
+
+
+def build_impl(spec: dict):
+    """the tree as the USER builds it: like `ptgen.build`, but nodes marked `via` are constructed through the helper
+    constructors (`with_repetition` / `**`, `SequencePT.concatenate` / `@`, `with_mapping`, `with_iteration`,
+    `with_parallel_channels`, `with_time_reversal`) called on their built children; these may merge / flatten / undo.
+    The Lean side always sees the explicit nesting (`build_ref` ignores `via`)."""
+    spec = ptgen.strip(copy.deepcopy(spec))
+
+    def go(node):
+        for c in ptgen.children(node):
+            go(c)
+        via = node.get('via')
+        if via:
+            if node.get('id') or node.get('meas') or node.get('cons'):
+                raise core.MachineryError('helper constructors take no identifier / measurements / constraints')
+            node['_pt'] = _build_via(node, via)
+    go(spec)
+    return ptgen.build(spec)
+
+
+def apply_helpers(rng: random.Random, spec: dict, p: float, wrap_p: float) -> None:
+    """mark undecorated composite nodes as built through the helper API; repeat some repetitions once more through
+    `with_repetition` / `**` (the inner one mostly without identifier and measurements, so that the helper folds the two
+    counts into one template -- its constraints, added by `decorate`, have to survive)"""
+    for node in list(ptgen.spec_nodes(spec)):
+        k = node['k']
+        if k == 'rep' and rng.random() < wrap_p:
+            inner = dict(node)
+            if rng.random() < 0.7:
+                inner.pop('id', None)
+                inner['meas'] = []
+            node.clear()
+            node.update({'k': 'rep', 'body': inner, 'count': rng.choice(['2', '2', '3', '1']), 'meas': [], 'cons': [],
+                         'via': rng.choice(VIA['rep'])})
+            continue
+        if k in VIA and not node.get('id') and not node.get('meas') and not node.get('cons') and not node.get('nocons') \
+                and not node.get('pair') and rng.random() < p:
+            if k == 'rep' and node['body']['k'] == 'rep' and node['count'] not in ('1', '2', '3'):
+                # `rep.with_repetition(c)` may fold the counts into ONE node that carries the inner constraints; with c <= 0
+                # the explicit nesting does not visit the inner repetition at all while the folded node is visited (and
+                # validates) -- both are right for their tree, so only positive literal counts are folded here
+                continue
+            node['via'] = rng.choice(VIA[k])
+
+
 def has_nested_map(spec: dict) -> bool:
     for n in ptgen.spec_nodes(spec):
         if n['k'] == 'map' and n['body']['k'] == 'map' and not n['body'].get('id'):
@@ -82,7 +162,7 @@ def fnum(v) -> Any:
 # generation: tree + phase-1 constraints
 # ------------------------------------------------------------------------------------------------
 
-def gen_tree(rng: random.Random, depth: int, pair_p: float = 0.3, remap_p: float = 0.35) -> dict:
+def gen_tree(rng: random.Random, depth: int, pair_p: float = 0.3, remap_p: float = 0.35, helper_p: float = 0.3) -> dict:
     g = ptgen.Gen(rng, depth)
     for _ in range(30):
         env, values = g.params()
@@ -115,6 +195,7 @@ def gen_tree(rng: random.Random, depth: int, pair_p: float = 0.3, remap_p: float
         spec = ptgen.strip(spec)
         values = dict(values)
         remap_indices(rng, spec, remap_p)
+        apply_helpers(rng, spec, helper_p, 0.35)
         if rng.random() < pair_p:
             spec = wrap_pair(rng, spec, pt.parameter_names, values, g.fresh)
         return {'spec': spec, 'values': values, 'cm': cm, 'mm': mm, 'counter': g.counter}
@@ -255,6 +336,8 @@ def decorate(rng: random.Random, tree: dict, density: float = 0.55, self_range_p
             continue
         if node.get('nocons') and rng.random() < 0.85:
             continue                                   # stays mergeable (anonymous and constraint free)
+        if node.get('via'):
+            continue                                   # built by a helper constructor: these take no constraints
         node.setdefault('cons', [])
         node['cons'] = list(node['cons'] or [])
         n_new = 0
@@ -442,7 +525,7 @@ def phase_a(desc: dict) -> Optional[dict]:
         recs = decorate(rng, tree)
         try:
             ref = build_ref(tree['spec'])
-            ptgen.build(copy.deepcopy(tree['spec']))
+            build_impl(tree['spec'])
         except Exception:  # noqa -- e.g. a mapping the constructor rejects
             continue
         tree['recs'] = recs
@@ -528,7 +611,7 @@ def make_streams(desc: dict) -> List[dict]:
     tree = desc['tree']
     rng = random.Random(tree['seed'] ^ 0x9e3779b9)
     spec_sat = finalize(rng, tree)
-    pt = ptgen.build(copy.deepcopy(spec_sat))
+    pt = build_impl(spec_sat)
     declared = sorted(pt.parameter_names)
     values = tree['values']
     cases: List[dict] = []
@@ -548,7 +631,7 @@ def make_streams(desc: dict) -> List[dict]:
         sv = with_violation(spec_sat, tree, r)
         p2 = dict(sat_params)
         try:
-            for n in ptgen.build(copy.deepcopy(sv)).parameter_names:
+            for n in build_impl(sv).parameter_names:
                 p2.setdefault(n, values.get(n, 1))
         except Exception:  # noqa
             continue
@@ -580,7 +663,7 @@ def evaluate_case(case: dict) -> Optional[dict]:
     warnings.filterwarnings('ignore')
     core.ensure_repo_on_path()
     try:
-        pt = ptgen.build(copy.deepcopy(case['spec']))
+        pt = build_impl(case['spec'])
         ref = build_ref(case['spec'])
     except Exception as exc:  # noqa -- not constructible: not an instantiation case
         return None
@@ -747,6 +830,8 @@ def assess(ctx: core.Ctx, rec: dict, count=True) -> Tuple[List[dict], List[str],
         if any(n.get('self_range') for n in ptgen.spec_nodes(rec['case']['spec'])) or \
                 rec['case'].get('label', '').startswith('self-range'):
             ctx.count('with-loop-range-naming-its-own-index')
+        if any(n.get('via') for n in ptgen.spec_nodes(rec['case']['spec'])):
+            ctx.count('with-node-built-by-a-helper-constructor')
         if any(n.get('remap') for n in ptgen.spec_nodes(rec['case']['spec'])) or \
                 rec['case'].get('label', '').startswith('index-remap'):
             ctx.count('with-mapping-that-redefines-the-loop-index')
@@ -874,7 +959,7 @@ def _shrink_candidates(case: dict) -> List[dict]:
 def _restrict_params(case: dict) -> dict:
     """after shrinking the tree: keep the stream's intent (exactly declared / extra / missing) on the new tree"""
     try:
-        pt = ptgen.build(copy.deepcopy(case['spec']))
+        pt = build_impl(case['spec'])
     except Exception:  # noqa
         return case
     declared = set(pt.parameter_names)
@@ -976,6 +1061,7 @@ def exhaustive_cases() -> List[dict]:
     out.extend(self_range_cases())
     out.extend(nested_map_cases())
     out.extend(index_remap_cases())
+    out.extend(helper_cases())
     return out
 
 
@@ -1014,6 +1100,73 @@ NESTED_OUTER = {'chain': [['x1', 'x2'], ['x2', 'c']], 'rchain': [['x2', 'x1'], [
 
 def _eval_simple(expr: str, env: Dict[str, F]) -> F:
     return F(eval(expr, {'__builtins__': {}}, dict(env)))      # noqa: S307 -- own literals: names, +, numbers
+
+
+def helper_cases() -> List[dict]:
+    """constrained nodes handed to the helper constructors (the Lean side sees the explicit nesting): a RepetitionPT with
+    constraints -- plain (the helper folds the counts into one template), with identifier, with measurements -- repeated
+    through `with_repetition(2)`, `** 2`, `with_repetition('k')`, twice in a row; constrained sequence / mapping / iteration /
+    table below `@`, `concatenate`, `with_mapping`, `with_iteration`, `with_parallel_channels` (twice), `with_time_reversal`
+    (twice).  Constraint over a constraint-only parameter `x` or over the count `n`, satisfied on / violated at the boundary;
+    once with exactly the names the implementation declares, once with all names given."""
+    out = []
+    eighth = F(1, 8)
+    pool = {'a': 0.25, 'n': 2, 'k': 2, 'x': 0.5, 'j': 5}
+    pairs = [('<=', F(0)), ('<=', -eighth), ('<', F(0)), ('<', eighth)]
+
+    def atom():
+        return {'k': 'func', 'ch': 'A', 'dur': '1', 'expr': 'a', 'meas': [], 'cons': []}
+
+    def via(node, how):
+        return dict(node, via=how, meas=[], cons=[]) if node['k'] not in ('par', 'rev', 'map') else dict(node, via=how)
+    shapes: List[Tuple[str, Any]] = []
+    for flavour in ('plain', 'id', 'meas'):
+        def inner(con, flavour=flavour):
+            r = {'k': 'rep', 'body': atom(), 'count': 'n', 'meas': [], 'cons': [con]}
+            if flavour == 'id':
+                r['id'] = 'named'
+            if flavour == 'meas':
+                r['meas'] = [['M', '0', '1']]
+            return r
+        for cname, chain in (('wr2', [('with_repetition', '2')]), ('pow2', [('pow', '2')]), ('wrk', [('with_repetition', 'k')]),
+                             ('wrk-wr3', [('with_repetition', 'k'), ('with_repetition', '3')]),
+                             ('pow2-powk', [('pow', '2'), ('pow', 'k')])):
+            def make(con, inner=inner, chain=chain):
+                x = inner(con)
+                for how, cnt in chain:
+                    x = via({'k': 'rep', 'body': x, 'count': cnt}, how)
+                return x
+            shapes.append(('rep-%s/%s' % (flavour, cname), make))
+
+    def seq(con):
+        return {'k': 'seq', 'subs': [atom()], 'meas': [], 'cons': [con]}
+    shapes.append(('seq/matmul', lambda con: via({'k': 'seq', 'subs': [seq(con), atom()]}, 'matmul')))
+    shapes.append(('seq/rmatmul', lambda con: via({'k': 'seq', 'subs': [atom(), seq(con)]}, 'matmul')))
+    shapes.append(('seq/concatenate', lambda con: via({'k': 'seq', 'subs': [seq(con), seq(con), atom()]}, 'concatenate')))
+    shapes.append(('map/with_mapping', lambda con: via({'k': 'map', 'body': {'k': 'map', 'body': atom(), 'pm': [['a', 'a']], 'mm': None,
+                                                                               'cm': None, 'cons': [con]},
+                                                         'pm': [['a', 'a']], 'mm': None, 'cm': None}, 'with_mapping')))
+    shapes.append(('for/with_iteration', lambda con: via({'k': 'for', 'body': {'k': 'rep', 'body': dict(atom(), expr='a + i'), 'count': 'n',
+                                                                                 'meas': [], 'cons': [con]},
+                                                           'idx': 'i', 'range': ['0', '2', '1']}, 'with_iteration')))
+    tab = lambda con: {'k': 'table', 'entries': [['A', [['0', 'a', 'hold'], ['1', 'a', 'hold']]]], 'meas': [], 'cons': [con]}  # noqa
+    shapes.append(('par/twice', lambda con: via({'k': 'par', 'body': via({'k': 'par', 'body': tab(con), 'over': [['B', '0.5']]},
+                                                                         'with_parallel_channels'), 'over': [['B', 'a']]},
+                                                'with_parallel_channels')))
+    shapes.append(('rev/twice', lambda con: via({'k': 'rev', 'body': via({'k': 'rev', 'body': tab(con)}, 'with_time_reversal')},
+                                                'with_time_reversal')))
+    for sname, make in shapes:
+        for var, val in (('x', F(1, 2)), ('n', F(2))):
+            for rel, off in pairs:
+                con = '%s %s %s' % (var, rel, ptgen.fstr(val + off))
+                spec = make(con)
+                label = 'helper/%s/%s/%s/%s' % (sname, var, rel, off)
+                if sname.startswith('rep-'):
+                    out.append({'spec': spec, 'params': {}, 'param_pool': pool, 'cm': {}, 'mm': None, 'stream': 'exhaustive',
+                                'label': label + '/declared'})
+                out.append({'spec': copy.deepcopy(spec), 'params': {k: v for k, v in pool.items() if k != 'j'}, 'cm': {}, 'mm': None,
+                            'stream': 'exhaustive', 'label': label + '/all'})
+    return out
 
 
 def index_remap_cases() -> List[dict]:
@@ -1156,7 +1309,9 @@ def run(ctx: core.Ctx):
                 'pair of directly nested mappings (anonymous constraint free inner mapping that the constructor merges, outer '
                 'mapping a rename chain / swap / cycle over mapped names) which the Lean side sees as composed; below 35 % of '
                 'the iterations a mapping that re-defines the loop index name in terms of itself, followed by repetition / '
-                'sequence levels; plus the '
+                'sequence levels; 30 % of the undecorated composite nodes are built through the helper constructors '
+                '(with_repetition / **, concatenate / @, with_mapping, with_iteration, with_parallel_channels, with_time_reversal) and '
+                '35 % of the repetitions are repeated once more through with_repetition / ** (Lean sees the explicit nesting); plus the '
                 'exhaustive space below. '
                 'Non-trivial = at least one constraint is visible and the tree has more than one node; distinct by request line')
     ctx.assumptions = [
@@ -1179,7 +1334,11 @@ def run(ctx: core.Ctx):
                                  'carrying a constraint below / on / above the boundary in 3 relations; exactly the declared '
                                  'names, extra inner names, one name missing), plus iteration -> mapping of the loop index name '
                                  '(i -> i + 10 / identity / another name) -> 6 repetition / sequence levels -> constraint on the '
-                                 'leaf / a sequence / the repetition, 8 relation-constant pairs on the boundary: %d cases' % len(ex))
+                                 'leaf / a sequence / the repetition, 8 relation-constant pairs on the boundary, plus constrained nodes '
+                                 'handed to the helper constructors (a constrained RepetitionPT plain / named / with measurements '
+                                 'repeated through with_repetition / ** in 5 chains; constrained sequence / mapping / iteration / '
+                                 'table below @, concatenate, with_mapping, with_iteration, with_parallel_channels, '
+                                 'with_time_reversal) with the Lean side on the explicit nesting: %d cases' % len(ex))
     recs = [r for r in _pool_map(ctx, evaluate_case, ex) if r is not None]
     # random trees: phase A (draw + probe), phase B (streams)
     depth = 4 if ctx.quick else 5
